@@ -2829,3 +2829,34 @@ Proof.
     destruct (Nat.leb i (length pre)); [reflexivity|]. apply lookup_ins_at. exact Hke.
   - intros k Hke. apply lookup_ins_at. exact Hke.
 Qed.
+
+(* ------------------------------------------------------------------------------------ *)
+(* Part 8: with the repaired Seek the bounded iterator always repositions                  *)
+(* ------------------------------------------------------------------------------------ *)
+
+Section BoundedExact.
+  Context {S : Type} (I : Iter S) (ok : S -> Prop) (content rest : S -> list kv).
+  Context (L : Lawful I ok content rest).
+  Context (Hstrict : forall s, ok s -> kstrict (content s)).
+  Context (X : ExactSeek I ok content rest).
+  Context (lo hi : option bytes).
+  Context (Hflag : bounded_seek_miss_moves = true).
+
+  Theorem bounded_exact :
+    ExactSeek (bounded_iter I lo hi) ok (b_content content lo hi) (b_rest I rest lo hi).
+  Proof.
+    intros t s H. cbn [bounded_iter i_seek]. unfold b_seek, b_seek_gen. rewrite Hflag. cbn [negb andb].
+    set (t' := match lo with Some a => if blt t a then a else t | None => t end).
+    destruct (L_seek _ _ _ _ L t' s H) as (A1 & A2 & _). destruct (X t' s H) as (Xr & Xs).
+    pose proof (b_content_from_ge I ok content Hstrict lo hi t s H) as Bc. fold t' in Bc.
+    destruct (i_seek I t' s) as [s' ret]. cbn [fst snd] in *.
+    assert (Hr' : b_rest I rest lo hi s' = from_ge t (b_content content lo hi s)).
+    { rewrite Bc, <- A2. apply (b_rest_after_seek I ok content rest L Hstrict lo hi); [exact A1|rewrite A2; exact Xr|].
+      apply (in_lo_true_clamp I lo hi t). }
+    assert (G : b_rest I rest lo hi s' = from_ge t (b_content content lo hi s) /\
+                (if ret then b_check I lo hi s' else false) = nonempty (from_ge t (b_content content lo hi s))).
+    { split; [exact Hr'|]. rewrite <- Hr'. destruct ret; [apply (b_valid I ok content rest L lo hi); exact A1|].
+      rewrite Hr', Bc. destruct (from_ge t' (content s)); [reflexivity|discriminate Xs]. }
+    destruct ret; cbn [fst snd]; exact G.
+  Qed.
+End BoundedExact.
